@@ -26,18 +26,22 @@ class SchedStream(Stream):
     shard_size = 8
     impl_timeout = 900
 
-    def __init__(self, pid: str, name="sched", feat=None, n_quick=32, n_thorough=800, extra_oracles=()):
+    def __init__(self, pid: str, name="sched", feat=None, n_quick=32, n_thorough=800, extra_oracles=(), corpus=()):
         self.pid = pid
         self.name = name
         self.feat = feat or {}
         self.n_quick, self.n_thorough = n_quick, n_thorough
         self.cache_key = f"sched:{name}:{json.dumps(self.feat, sort_keys=True)}"
         self.oracle_ids = [pid, *extra_oracles]
+        self._corpus = list(corpus)
         self.rule = (f"generated integer-cycling workflows (2-5 tasks, 1-2 recurrences from P1 P2 P3 R1 R1/$ +P1/P2, "
                      f"AND/OR/parenthesised triggers, [-P1]/[-P2] offsets incl. pre-initial, :fail?/:start/custom outputs, "
                      f"optional outputs, runahead P0-P4, features {self.feat}), job outcomes and message delivery order "
                      f"drawn from the scenario seed; each run on the real Scheduler in-process; non-trivial = "
                      f"distinct (graph, outcome) with at least 2 submissions")
+
+    def corpus(self):
+        return [dict(c) for c in self._corpus]
 
     def gen(self, rng, tier):
         n = self.n_quick if tier == "quick" else self.n_thorough
